@@ -353,11 +353,40 @@ def arr_getitem(it, a, idx):
         return take(it, a, index_seq(it, arr))
     if is_intlike(idx):
         i = M.norm_index(it, idx, a.len)
-        return scalar_of(a, a.seq.at(i))
+        return scalar_of(a, a.seq.at(i), it)
     raise Unsupported(f"array index {idx!r}")
 
 
-def scalar_of(a, e):
+class NPScalar:
+    """Element / reduction result of an array: a NumPy scalar (has .item()) for numeric, boolean and date kinds; for
+    string and object arrays NumPy hands out the Python object itself (no .item())."""
+    def __init__(self, term, kind):
+        self.term, self.kind = term, kind
+
+    def has_item(self):
+        r = kind_is(self.kind, "string", "object")
+        return (not r) if isinstance(r, bool) else z3.Not(r)
+
+    def pyvc_getattr(self, it, name):
+        if name == "item":
+            h = self.has_item()
+            if not it.ctx.branch(h):
+                raise PyRaise("AttributeError", "'str' object has no attribute 'item'")
+            return ModelFn("numpy scalar.item", lambda i, a, k, t=self.term: t)
+        raise Unsupported(f"numpy scalar attribute {name}")
+
+    def pyvc_subst(self, fn):
+        return NPScalar(fn(self.term), fn(self.kind) if is_z3(self.kind) else self.kind)
+
+    def pyvc_merge(self, cond, other):
+        from .loops import merge
+        o = other.term if isinstance(other, NPScalar) else M.to_v(None, other)
+        return z3.If(cond, self.term, o)
+
+
+def scalar_of(a, e, it=None):
+    if it is not None and getattr(it, "np_scalars", False) and a.seq.sort == V:
+        return NPScalar(e, a.kind)
     return e
 
 
@@ -955,8 +984,50 @@ def _np_dtype(it, args, kwargs):
     return DType(k)
 
 
+_stat_fns = {}
+
+
+def stat_term(it, name, seq, extra=()):
+    """Uninterpreted statistic of a sequence: stat_<name>(elements as an array, length, extra arguments...)"""
+    key = (name, len(extra))
+    if key not in _stat_fns:
+        _stat_fns[key] = z3.Function("stat_" + name, z3.ArraySort(INT, V), INT, *([V] * len(extra)), V)
+    j = z3.Int("j!st")
+    arr = z3.Lambda([j], coerce(it, seq.at(j), seq.sort, V))
+    return _stat_fns[key](arr, zint(seq.len), *[M.to_v(it, e) for e in extra])
+
+
+def _reduction(name, needs_nonempty=False):
+    def fn(it, args, kwargs):
+        a = as_arr(it, args[0])
+        s = a.seq
+        if needs_nonempty and not it.ctx.branch(zint(s.len) > 0):
+            raise PyRaise("ValueError", f"zero-size array to reduction operation {name} which has no identity")
+        extra = list(args[1:]) + [kwargs[k] for k in sorted(kwargs)]
+        it.ctx.used_models.add(f"np.{name}: the textbook statistic of the elements (uninterpreted; NaN-propagating) - assumed")
+        t = stat_term(it, name + ("_" + "_".join(sorted(kwargs)) if kwargs else ""), s, extra)
+        return NPScalar(t, a.kind if name in ("amax", "amin", "sum") else "float")
+    return ModelFn("np." + name, fn)
+
+
+def _np_datetime64(it, args, kwargs):
+    """np.datetime64(x) / np.timedelta64(x): the missing value for "NaT", otherwise some non-missing date value"""
+    if args and isinstance(args[0], str) and args[0] == "NaT":
+        return NAT
+    v = it.ctx.fresh("date_value", V)
+    it.ctx.assume(z3.And(z3.Not(is_nat(v)), z3.Not(is_nan(v)), v != NONE))
+    return v
+
+
 def make_np(it):
+    if not it.ctx.__dict__.get("_nan_axioms"):
+        it.ctx.__dict__["_nan_axioms"] = True
+        it.ctx.axioms += [is_nan(NAN), is_nat(NAT), z3.Not(is_nat(NAN)), z3.Not(is_nan(NAT)), NAN != NONE, NAT != NONE,
+                          NAN != ABSENT, NAT != ABSENT, NAN != NAT]
     members = {
+        "all": _reduction("all"), "any": _reduction("any"), "amax": _reduction("amax", True), "amin": _reduction("amin", True),
+        "mean": _reduction("mean"), "median": _reduction("median"), "quantile": _reduction("quantile"), "std": _reduction("std"),
+        "var": _reduction("var"), "sum": _reduction("sum"),
         "take": ModelFn("np.take [fresh]", _np_take), "delete": ModelFn("np.delete [fresh]", _np_delete),
         "nonzero": ModelFn("np.nonzero", _np_nonzero), "flatnonzero": ModelFn("np.flatnonzero", lambda it_, a, k: _np_nonzero(it_, a, k)[0]),
         "arange": ModelFn("np.arange", _np_arange), "concatenate": ModelFn("np.concatenate [fresh]", _np_concatenate),
@@ -967,9 +1038,10 @@ def make_np(it):
         "split": ModelFn("np.split [views]", _np_split), "unique": ModelFn("np.unique(return_index)", _np_unique), "dtype": ModelFn("np.dtype", _np_dtype),
         "isscalar": ModelFn("np.isscalar", lambda it_, a, k: not isinstance(a[0], (NDArr, MList, PyList, Seq, list, tuple, dict, GenValue))
                             and not hasattr(a[0], "pyvc_segments")),
-        "ndarray": NDARRAY, "bool_": TypeObj("bool_"), "bytes_": TypeObj("bytes_"), "datetime64": TypeObj("datetime64"),
+        "ndarray": NDARRAY, "bool_": TypeObj("bool_"), "bytes_": TypeObj("bytes_"),
+        "datetime64": TypeObj("datetime64", ctor=_np_datetime64), "timedelta64": TypeObj("timedelta64", ctor=_np_datetime64),
         "floating": TypeObj("floating"), "integer": TypeObj("integer"), "number": TypeObj("number"),
-        "object_": TypeObj("object_"), "str_": TypeObj("str_"), "timedelta64": TypeObj("timedelta64"),
+        "object_": TypeObj("object_"), "str_": TypeObj("str_"),
         "nan": NAN,
         "random": ModuleNS("np.random", {"choice": ModelFn("np.random.choice", _np_random_choice)}),
     }
